@@ -238,6 +238,12 @@ struct LoopInfo {
     body_open: usize, // byte offset of `{`
     body_close: usize, // byte offset of `}`
     start: usize,
+    iter_start: Option<usize>, // `for` loops: byte offset of the iterated expression
+    tail_no_semi: bool, // the body ends in an expression statement without `;`
+}
+
+fn tail_no_semi(b: &syn::Block) -> bool {
+    matches!(b.stmts.last(), Some(syn::Stmt::Expr(_, None)))
 }
 
 struct BodyV<'a> {
@@ -376,6 +382,11 @@ impl<'a, 'ast> Visit<'ast> for BodyV<'a> {
         if let syn::Expr::Path(p) = &*c.func {
             if let (Some(st), Some(last)) = (self.stmt_stack.last(), p.path.segments.last()) {
                 self.calls.push((last.ident.to_string(), *st));
+                // also under its qualified name `Type::name` (anchors that survive other `::new` calls being added)
+                let n = p.path.segments.len();
+                if n >= 2 {
+                    self.calls.push((format!("{}::{}", p.path.segments[n - 2].ident, last.ident), *st));
+                }
             }
         }
         syn::visit::visit_expr_call(self, c);
@@ -401,19 +412,19 @@ impl<'a, 'ast> Visit<'ast> for BodyV<'a> {
     fn visit_expr_loop(&mut self, l: &'ast syn::ExprLoop) {
         let (o, _) = br(l.body.brace_token.span.open());
         let (c, _) = br(l.body.brace_token.span.close());
-        self.loops.push(LoopInfo { body_open: o, body_close: c, start: br(l.span()).0 });
+        self.loops.push(LoopInfo { body_open: o, body_close: c, start: br(l.span()).0, iter_start: None, tail_no_semi: tail_no_semi(&l.body) });
         syn::visit::visit_expr_loop(self, l);
     }
     fn visit_expr_while(&mut self, l: &'ast syn::ExprWhile) {
         let (o, _) = br(l.body.brace_token.span.open());
         let (c, _) = br(l.body.brace_token.span.close());
-        self.loops.push(LoopInfo { body_open: o, body_close: c, start: br(l.span()).0 });
+        self.loops.push(LoopInfo { body_open: o, body_close: c, start: br(l.span()).0, iter_start: None, tail_no_semi: tail_no_semi(&l.body) });
         syn::visit::visit_expr_while(self, l);
     }
     fn visit_expr_for_loop(&mut self, l: &'ast syn::ExprForLoop) {
         let (o, _) = br(l.body.brace_token.span.open());
         let (c, _) = br(l.body.brace_token.span.close());
-        self.loops.push(LoopInfo { body_open: o, body_close: c, start: br(l.span()).0 });
+        self.loops.push(LoopInfo { body_open: o, body_close: c, start: br(l.span()).0, iter_start: Some(br(l.expr.span()).0), tail_no_semi: tail_no_semi(&l.body) });
         syn::visit::visit_expr_for_loop(self, l);
     }
     fn visit_expr_closure(&mut self, c: &'ast syn::ExprClosure) {
@@ -771,6 +782,14 @@ fn gen_fn(ctx: &mut Ctx, fs_: &FnSpec) -> R<()> {
     for (k, cls) in &fs_.loops {
         let li = v.loops.get(k - 1).ok_or(Fail(format!("anchor lost: {} has no loop #{k}", fs_.path)))?;
         let (bo, _bc) = (li.body_open, li.body_close);
+        if let Some(is) = li.iter_start {
+            // `for x in e` -> `for x in verif_it: e`: names the ghost iterator so that invariants can mention its position
+            v.seq += 1;
+            let seq = v.seq;
+            v.edits.push(Edit { start: is, end: is, text: "verif_it: ".into(), rule: "E2".into(), seq, marks: vec![] });
+        }
+        let li = v.loops.get(k - 1).unwrap();
+        let _ = li;
         let mut marks = vec![];
         let mut s = String::new();
         let base_idx = all_clauses.len();
@@ -893,6 +912,31 @@ fn gen_fn(ctx: &mut Ctx, fs_: &FnSpec) -> R<()> {
         // i.e. `assert(false)` at the start of the body must FAIL
         proofs_all.push(("start".to_string(), Clause { kind: "proof".into(), id: "vacuity.false".into(), tags: vec![], text: "{ assert(false); }".into(), place: String::new() }));
     }
+    // `before_return *` / `before_continue *` / `before_break *`: the clause is placed at EVERY such point of the
+    // function (one obligation `id#k` per point), so that a point added by a later change is covered too
+    let mut expanded: Vec<(String, Clause)> = vec![];
+    for (anchor, c) in proofs_all.into_iter() {
+        let parts: Vec<&str> = anchor.split_whitespace().collect();
+        if parts.len() == 2 && parts[1] == "*" {
+            let n = match parts[0] {
+                "before_return" => v.returns.len(),
+                "before_continue" => v.continues.len(),
+                "before_break" => v.breaks.len(),
+                _ => return fail(format!("bad proof anchor `{anchor}`")),
+            };
+            if n == 0 {
+                return fail(format!("anchor lost: {} has no `{}` point", fs_.path, parts[0]));
+            }
+            for k in 1..=n {
+                let mut c2 = c.clone();
+                c2.id = format!("{}#{k}", c.id);
+                expanded.push((format!("{} {k}", parts[0]), c2));
+            }
+        } else {
+            expanded.push((anchor, c));
+        }
+    }
+    let proofs_all = expanded;
     for (anchor, c) in &proofs_all {
         let parts: Vec<&str> = anchor.split_whitespace().collect();
         let pos = match parts.as_slice() {
@@ -951,7 +995,8 @@ fn gen_fn(ctx: &mut Ctx, fs_: &FnSpec) -> R<()> {
         } else {
             body
         };
-        let pre = if is_ghost { "\n        " } else { "\n        proof " };
+        let needs_semi = parts[0] == "loop_end" && parts.get(1).and_then(|k| k.parse::<usize>().ok()).and_then(|k| v.loops.get(k - 1)).map(|l| l.tail_no_semi).unwrap_or(false);
+        let pre = if is_ghost { if needs_semi { ";\n        " } else { "\n        " } } else if needs_semi { ";\n        proof " } else { "\n        proof " };
         let t = format!("{pre}{body}\n        ");
         // stmt-start anchors must not land inside an earlier statement's edit; before_* inserts
         // before the statement, after_* after it
